@@ -2,6 +2,7 @@
 from __future__ import annotations
 
 import ast
+import re
 
 from ..core import own_walk
 from ..model import AnalysisError, FAMILY, MUTABLE
@@ -747,4 +748,160 @@ def rule_D5(ctx):
                            'documented exception class', loc=f.loc(x))
     if n < 6:
         raise AnalysisError(f'only {n} next()/struct.pack sites found (floor 6)')
+    return r
+
+
+def rule_RNG(ctx):
+    """A range and a slice read negative bounds differently (range(9, -1, -2) counts down to 0; slice(9, -1, -2) stops
+    before the *last* element and is empty; range(-3, 0) names three positions from the end, slice(-3, 0) none), and a
+    slice clips out-of-range bounds where a position must raise.  So a slice whose bounds are taken directly from a
+    range's .start/.stop is only right under a dominating check that the bounds are non-negative and inside the object."""
+    m = ctx.m
+    r = RuleResult('RNG', 'a slice built from a range keeps the positions the range names (no raw .start/.stop reuse)')
+    n = 0
+    for f in m.funcs.values():
+        if f.mod == '__main__':
+            continue
+        ranges = set()
+        for x in own_walk(f.node):
+            if isinstance(x, ast.Call) and isinstance(x.func, ast.Name) and x.func.id == 'isinstance' and len(x.args) == 2 \
+                    and isinstance(x.args[0], ast.Name) and any(isinstance(y, ast.Name) and y.id == 'range' for y in ast.walk(x.args[1])):
+                ranges.add(x.args[0].id)
+            if isinstance(x, ast.Assign) and isinstance(x.value, ast.Call) and isinstance(x.value.func, ast.Name) and x.value.func.id == 'range':
+                ranges |= {t.id for t in x.targets if isinstance(t, ast.Name)}
+        for a in f.node.args.args + f.node.args.kwonlyargs:
+            if a.annotation is not None and ast.unparse(a.annotation) == 'range':
+                ranges.add(a.arg)
+        for x in own_walk(f.node):
+            if not (isinstance(x, ast.Call) and isinstance(x.func, ast.Name) and x.func.id == 'slice'):
+                continue
+            raw = [y for a in x.args for y in ast.walk(a) if isinstance(y, ast.Attribute) and y.attr in ('start', 'stop')
+                   and isinstance(y.value, ast.Name) and y.value.id in ranges]
+            n += 1
+            if not raw:
+                r.ok(f'{f.key}:{norm(x)}')
+                continue
+            names = {y.value.id for y in raw}
+            g = any(isinstance(i, ast.If) and _range_bounds_checked(i.test, names) and any(x is y for b in i.body for y in ast.walk(b))
+                    for i in own_walk(f.node))
+            if g:
+                r.ok(f'{f.key}:{norm(x)}')
+            else:
+                r.fail(f.key, x, f"slice bounds are taken directly from the range {sorted(names)}: a negative stop/start means something else in a "
+                       'slice (range(9, -1, -2) names 9,7,..,1; slice(9, -1, -2) is empty) and out-of-range bounds are clipped instead of raising '
+                       'IndexError, so the positions named by the range are not the positions written', loc=f.loc(x))
+        for x in own_walk(f.node):
+            if isinstance(x, ast.Call) and isinstance(x.func, ast.Name) and x.func.id == 'isinstance' and len(x.args) == 2 \
+                    and isinstance(x.args[0], ast.Name) and x.args[0].id in ranges:
+                n += 1
+                r.ok(f'{f.key}:{norm(x)}')
+    if n < 5:
+        raise AnalysisError(f'only {n} slice() constructions found in the package (floor 5)')
+    return r
+
+
+def _range_bounds_checked(test, names):
+    """The guard compares both a lower bound with 0 and an upper bound with a length, mentioning the range's bounds."""
+    txt = ast.unparse(test)
+    mentions = any(re.search(rf'\b{re.escape(nm)}\.(start|stop)\b', txt) for nm in names)
+    return mentions and re.search(r'\b0\s*<=|>=\s*0\b', txt) is not None and 'len(' in txt
+
+
+def rule_IDX1(ctx):
+    """A single position k turned into the one-element window [k, k+1) must be non-negative first: for k = -1 the window
+    is [-1, 0), which is empty, so a write/delete/read of "the last bit" silently does nothing (or hits the wrong bit for
+    other negative k when the operation is not a plain slice).  Each such window needs a dominating fact k >= 0."""
+    _MODEL[0] = ctx.m
+    m = ctx.m
+    r = RuleResult('IDX1', 'a position widened to the window [k, k+1) is known to be non-negative')
+    n = 0
+    for f in m.funcs.values():
+        if f.mod == '__main__':
+            continue
+        for x in own_walk(f.node):
+            lo = hi = None
+            if isinstance(x, ast.Slice) and x.lower is not None and x.upper is not None and x.step is None:
+                lo, hi = x.lower, x.upper
+            elif isinstance(x, ast.Call) and isinstance(x.func, ast.Name) and x.func.id == 'slice' and len(x.args) >= 2:
+                lo, hi = x.args[0], x.args[1]
+            if lo is None or not (isinstance(hi, ast.BinOp) and isinstance(hi.op, ast.Add) and ast.dump(hi.left) == ast.dump(lo)):
+                continue
+            n += 1
+            if not (isinstance(hi.right, ast.Constant) and hi.right.value == 1) or isinstance(lo, ast.Constant):
+                r.ok(f'{f.key}:{norm(x)}', trivial=True)      # a wider window [k, k+N): census only
+                continue
+            if isinstance(lo, ast.Name) and 'ge0' in facts_before(f, lo.id, x.lineno if hasattr(x, 'lineno') else lo.lineno):
+                r.ok(f'{f.key}:{norm(x)}')
+                continue
+            r.fail(f.key, x, f'the window [{ast.unparse(lo)}, {ast.unparse(lo)} + 1) is built from a position not known to be >= 0 here: '
+                   'for -1 it is the empty window [-1, 0), so the last element is silently skipped', loc=f.loc(lo))
+    if n < 10:
+        raise AnalysisError(f'only {n} [k, k+N) windows found in the package (floor 10)')
+    return r
+
+
+def rule_SLN(ctx):
+    """The bounds of a caller-supplied slice may be None or negative ("from the end").  They are positions only after
+    slice.indices()/indices(); arithmetic on a raw bound (key.start + 1, len - key.stop) treats -1 as a position and
+    produces the wrong window for every negative or omitted bound.  Raw bounds may be forwarded unchanged (to another
+    slicing operation, which normalises them) or compared; arithmetic needs a test of the bound's sign around it."""
+    m = ctx.m
+    r = RuleResult('SLN', 'no arithmetic on raw (possibly negative or None) bounds of a caller-supplied slice')
+    n = 0
+    for f in m.funcs.values():
+        if f.mod == '__main__':
+            continue
+        raw = set()
+        for a in f.node.args.posonlyargs + f.node.args.args + f.node.args.kwonlyargs:
+            if a.annotation is not None and ast.unparse(a.annotation).strip("'\"") == 'slice':
+                raw.add(a.arg)
+        for x in own_walk(f.node):
+            if isinstance(x, ast.Call) and isinstance(x.func, ast.Name) and x.func.id == 'isinstance' and len(x.args) == 2 \
+                    and isinstance(x.args[0], ast.Name) and isinstance(x.args[1], ast.Name) and x.args[1].id == 'slice' \
+                    and x.args[0].id in f.params():
+                raw.add(x.args[0].id)
+        if not raw:
+            continue
+        # a name unconditionally re-bound (to a normalised slice) stops being raw from that statement on; a re-binding under
+        # a condition leaves the raw value on the other path
+        killed = {}
+        for st in G.body_wo_doc(f):
+            if isinstance(st, ast.Assign):
+                for t in st.targets:
+                    if isinstance(t, ast.Name) and t.id in raw:
+                        killed.setdefault(t.id, st.lineno)
+
+        def is_raw_bound(e):
+            return isinstance(e, ast.Attribute) and e.attr in ('start', 'stop') and isinstance(e.value, ast.Name) and e.value.id in raw \
+                and not (e.value.id in killed and e.lineno > killed[e.value.id])
+        tainted = {}
+        for x in own_walk(f.node):
+            if isinstance(x, ast.Assign) and len(x.targets) == 1 and isinstance(x.targets[0], ast.Name):
+                v = x.value
+                cands = [v] + ([v.body, v.orelse] if isinstance(v, ast.IfExp) else [])
+                for cnd in cands:
+                    if is_raw_bound(cnd):
+                        tainted[x.targets[0].id] = cnd
+        for x in own_walk(f.node):
+            if is_raw_bound(x):
+                n += 1
+                r.ok(f'{f.key}:{norm(x)}')
+        for x in own_walk(f.node):
+            if not (isinstance(x, ast.BinOp) and isinstance(x.op, (ast.Add, ast.Sub, ast.Mult, ast.FloorDiv, ast.Mod))):
+                continue
+            for side in (x.left, x.right):
+                src = side if is_raw_bound(side) else tainted.get(side.id) if isinstance(side, ast.Name) else None
+                if src is None:
+                    continue
+                txt = ast.unparse(src)
+                signed = any(isinstance(i, (ast.If, ast.IfExp)) and re.search(rf'{re.escape(txt)}\s*(<|>=)\s*0|{re.escape(ast.unparse(side))}\s*(<|>=)\s*0', ast.unparse(i.test))
+                             and any(x is y for y in ast.walk(i)) for i in own_walk(f.node))
+                if signed:
+                    continue
+                n += 1
+                r.fail(f.key, x, f'arithmetic on the raw slice bound {txt}: it is None or negative for slices given from the end, so the '
+                       'computed window is wrong for those; normalise with slice.indices()/indices() first', loc=f.loc(x))
+                break
+    if n < 2:
+        raise AnalysisError(f'only {n} uses of raw slice bounds found (floor 2: BitArray._setitem_slice forwards key.start/key.stop)')
     return r
